@@ -389,7 +389,7 @@ func RuleOf(prop string) string {
 	case "C10":
 		return base + "more than 2 precondition violations were executed"
 	case "C11":
-		return base + "the released-memory oracle ran after a forced GC and an uninitialised add was checked for zero"
+		return base + "the released-memory oracle ran after a forced GC and an uninitialised add was checked for zero; for an engine-G trial: the collection was still running when the operation returned"
 	case "C15":
 		return base + "Shrink ran and shrank or freed at least one table"
 	case "C16":
@@ -411,7 +411,7 @@ func AssumptionsOf(prop string) []string {
 	}
 	switch prop {
 	case "C11":
-		a = append(a, "runtime.GC() completes a full collection; hazards that need the concurrent mark phase to overlap a raw copy are out of reach")
+		a = append(a, "engine A: runtime.GC() completes a full collection between operations; engine G (one worker in four): one seeded operation per trial overlaps the mark phase of a collection, the instant inside the phase is not controlled (timing of the collector), so a clean trial proves nothing and a failing one is a real use-after-free")
 	case "C17":
 		a = append(a, "the entity codec part is plain seeded input generation, not simulation")
 	}
